@@ -96,7 +96,21 @@ pub fn build_v1(rng: &mut Rng, spec: &V1Spec) -> NotarizedTransactionV1 {
     b.notarize(&notary).build()
 }
 
+/// when set, V2 intent headers use one fixed epoch window and no timestamps (so that all intents of a
+/// transaction have a common validity range and validation reaches the signature checks)
+pub static FIXED_HEADERS: std::sync::atomic::AtomicBool = std::sync::atomic::AtomicBool::new(false);
+
 pub fn intent_header_v2(rng: &mut Rng, disc: u64) -> IntentHeaderV2 {
+    if FIXED_HEADERS.load(std::sync::atomic::Ordering::Relaxed) {
+        return IntentHeaderV2 {
+            network_id: NetworkDefinition::simulator().id,
+            start_epoch_inclusive: Epoch::of(10),
+            end_epoch_exclusive: Epoch::of(20),
+            min_proposer_timestamp_inclusive: None,
+            max_proposer_timestamp_exclusive: None,
+            intent_discriminator: disc ^ (rng.next() << 20),
+        };
+    }
     let start = rng.below(100);
     IntentHeaderV2 {
         network_id: NetworkDefinition::simulator().id,
